@@ -24,6 +24,7 @@ type ReplayJob struct {
 	Entry  string
 	Script []ScriptVal
 	Tol    float64
+	Real   bool   // produced under the R-model
 	Path   string // where the script is (to be) stored
 }
 
@@ -136,7 +137,7 @@ func RunReplays(repo, root string, jobs []ReplayJob, race bool, timeout time.Dur
 
 		var list strings.Builder
 		for _, j := range byDir[d] {
-			b, _ := json.MarshalIndent(map[string]interface{}{"entry": j.Entry, "script": j.Script, "tol": j.Tol, "dir": j.Dir}, "", " ")
+			b, _ := json.MarshalIndent(map[string]interface{}{"entry": j.Entry, "script": j.Script, "tol": j.Tol, "dir": j.Dir, "real_model": j.Real}, "", " ")
 			os.MkdirAll(filepath.Dir(j.Path), 0755)
 			if err := os.WriteFile(j.Path, b, 0644); err != nil {
 				return nil, "", err
